@@ -608,11 +608,42 @@ def relevant_axioms(formulas, groups=None):
     return [chosen[nm] for nm, _ in cands if nm in chosen]
 
 
+# axiom name -> Lean theorem(s) in /verif/lemmas/Lemmas.lean that restate it (default: L_<name>)
+LEAN_ALIASES = {"cj_mmul": ["L_cjtr_mmul", "L_tr_mmul"], "cj_madd": ["L_cjtr_madd", "L_tr_madd"], "cj_smul": ["L_cjtr_smul", "L_tr_smul"], "cj_eye": ["L_cjtr_eye", "L_tr_eye"],
+                "cj_cj": ["L_cjtr_cjtr", "L_tr_tr"], "cj_minv": ["L_cjtr_minv", "L_tr_minv"], "sld_mmul2": ["L_sld_mmul"], "sld_kron2": ["L_sld_kron"],
+                "fnm_diagm": ["L_fnm_diagm_exp"], "fnm_tr": ["L_fnm_tr_exp"], "fnm_cjtr": ["L_fnm_cjtr_exp"], "exp_ksum": ["L_exp_add_commute", "L_kron_mmul"],
+                "trc_def_i": ["L_trc_def"], "trc_kron_i": ["L_trc_kron"], "invok_mmul_intro": ["L_invok_mmul"], "invok_smul": ["L_det_smul"],
+                "invok_smul_intro": ["L_det_smul"], "inv_smul_real": ["L_inv_smul"], "sld_rep": ["L_sld_rep"], "herm_cjtr_mul": ["L_psd_cjtr_mul", "L_psd_herm"],
+                "herm_mul_cjtr": ["L_psd_mul_cjtr", "L_psd_herm"], "stief_kron": ["L_kron_mmul", "L_cj_kron"], "unit_kron": ["L_unit_kron"], "pow_1": ["L_pow_2"]}
+
+
+def lean_checked():
+    """names of the lemma axioms that have a Lean/Mathlib-checked restatement (recorded by tools/check_lemmas.sh; the file is committed, lean is not run by the checks)"""
+    import json
+    import os
+    path = os.path.join(os.path.dirname(os.path.dirname(os.path.abspath(__file__))), "lemmas", "lean_checked.json")
+    try:
+        rec = json.load(open(path))
+    except (OSError, ValueError):
+        return [], None
+    if not rec.get("checked"):
+        return [], rec
+    have = set(rec.get("theorems", []))
+    out = []
+    for (nm, _, p, _) in LEMMAS:
+        cands = LEAN_ALIASES.get(nm, [f"L_{nm}"])
+        if all(c in have for c in cands):
+            out.append(nm)
+    return out, rec
+
+
 def lemma_stats():
     ml = sum(1 for (_, _, p, _) in LEMMAS if p.startswith(ML))
     assumed = [(nm, p[len(AS):]) for (nm, _, p, _) in LEMMAS if p.startswith(AS)]
+    lc, rec = lean_checked()
     return dict(total=len(LEMMAS), mathlib_named=ml, assumed=assumed,
-                definitional=len(LEMMAS) - ml - len(assumed))
+                definitional=len(LEMMAS) - ml - len(assumed), lean_checked=lc,
+                lean_record=None if rec is None else dict(lean=rec.get("lean"), theorems=len(rec.get("theorems", [])), source_sha256=rec.get("source_sha256")))
 
 
 # ---------------------------------------------------------------- proving
